@@ -20,6 +20,7 @@ class Store:
 
     def __init__(self):
         self.files = {}     # filename -> {key: array}
+        self.names = {}     # filename -> member names as written (np.savez adds ".npy", a plain ZipFile.open(name, "w") does not)
         self.events = []    # ordered I/O events
 
 
@@ -33,6 +34,7 @@ def make_interp(ctx, store):
         store.events.append(("savez", filename, tuple(data)))
         I_.emit("io", ("savez", filename))
         store.files[filename] = dict(data)   # np.savez replaces the file
+        store.names[filename] = [k + ".npy" for k in data]
         return None
 
     def zipfile(I_, filename, mode="r", **kw):
@@ -41,7 +43,9 @@ def make_interp(ctx, store):
         z = Record(None, {"filename": filename, "mode": mode}, label="ZipFile")
         if mode == "w":
             store.files[filename] = {}
+            store.names[filename] = []
         store.files.setdefault(filename, {})
+        store.names.setdefault(filename, [])
 
         def zopen(I2, name, m="r", **k2):
             store.events.append(("zip.open", filename, name, m))
@@ -51,12 +55,14 @@ def make_interp(ctx, store):
                 store.events.append(("zip.write", filename, name))
                 arr = payload[1] if isinstance(payload, tuple) and payload and payload[0] == "__npy__" else payload
                 store.files[filename][name[:-4] if name.endswith(".npy") else name] = arr
+                store.names[filename].append(name)
                 return None
             fh.native_methods["write"] = Native("write", write)
             fh.native_methods["close"] = Native("close", lambda I3: None)
             return fh
         z.native_methods["open"] = Native("open", zopen)
         z.native_methods["close"] = Native("close", lambda I2: None)
+        z.native_methods["namelist"] = Native("namelist", lambda I2: list(store.names[filename]))
         return z
 
     def bytesio(I_, *a):
